@@ -433,33 +433,56 @@ Proof.
     apply (assoc_key_filter (referenced st)); [assumption|]. eapply referenced_live; eassumption.
 Qed.
 
-Lemma ordered_frame fuel w st c b a : frame st (ordered fuel w st c b a).
-Proof. repeat split. Qed.
+(* class-level operations leave the heap of declarations and the instances alone and can only
+   shrink the weak cache (Provides.changed) *)
+Definition shrink (a b : state) : Prop :=
+  st_provs b = st_provs a /\ st_insts b = st_insts a /\ incl (st_cache b) (st_cache a).
 
-Lemma class_step_frame fuel w st x : is_class_op x = true -> frame st (step fuel w st x).
+Lemma shrink_refl a : shrink a a.
+Proof. repeat split. apply incl_refl. Qed.
+
+Lemma shrink_trans a b c : shrink a b -> shrink b c -> shrink a c.
+Proof.
+  intros (A1 & A2 & A3) (B1 & B2 & B3). repeat split; try congruence. eapply incl_tran; eassumption.
+Qed.
+
+Lemma frame_shrink a b : frame a b -> shrink a b.
+Proof. intros (A1 & A2 & A3). repeat split; auto. rewrite A2. apply incl_refl. Qed.
+
+Lemma notify_shrink fuel w st c : shrink st (notify fuel w st c).
+Proof. repeat split. cbn [notify st_cache]. intros x I. apply filter_In in I. tauto. Qed.
+
+Lemma ordered_shrink fuel w st c b a : shrink st (ordered fuel w st c b a).
+Proof.
+  unfold ordered. eapply shrink_trans; [|apply notify_shrink]. apply frame_shrink. repeat split.
+Qed.
+
+Lemma class_step_shrink fuel w st x : is_class_op x = true -> shrink st (step fuel w st x).
 Proof.
   destruct x; cbn [is_class_op step]; try discriminate; intros _.
-  - apply implementedBy_frame.
-  - unfold class_implements. eapply frame_trans; [apply implementedBy_frame|apply ordered_frame].
-  - unfold class_implements_only. eapply frame_trans; [apply implementedBy_frame|].
-    eapply frame_trans; [|apply ordered_frame]. repeat split.
-  - unfold class_implements_first. eapply frame_trans; [apply implementedBy_frame|apply ordered_frame].
-  - unfold class_provides. eapply frame_trans; [apply implementedBy_frame|]. repeat split.
+  - apply frame_shrink, implementedBy_frame.
+  - unfold class_implements. eapply shrink_trans; [apply frame_shrink, implementedBy_frame|apply ordered_shrink].
+  - unfold class_implements_only. eapply shrink_trans; [apply frame_shrink, implementedBy_frame|].
+    eapply shrink_trans; [|apply ordered_shrink].
+    eapply shrink_trans; [|apply notify_shrink]. apply frame_shrink. repeat split.
+  - unfold class_implements_first. eapply shrink_trans; [apply frame_shrink, implementedBy_frame|apply ordered_shrink].
+  - unfold class_provides. eapply shrink_trans; [apply frame_shrink, implementedBy_frame|].
+    apply frame_shrink. repeat split.
 Qed.
 
-Lemma step_pinv fuel w st x : pinv st -> pinv (step fuel w st x).
+Lemma class_ops_shrink fuel w cops : forall st,
+  forallb is_class_op cops = true -> shrink st (fold_left (step fuel w) cops st).
 Proof.
-  intros P. destruct (is_class_op x) eqn:K.
-  - eapply pinv_frame; [apply class_step_frame; assumption|assumption].
-  - destruct x; cbn [is_class_op] in K; try discriminate; cbn [step].
-    + apply directly_provides_pinv; assumption.
-    + apply directly_provides_pinv; assumption.
-    + apply gc_pinv; assumption.
+  induction cops as [|x l IH]; intros st; cbn [forallb fold_left]; [intros; apply shrink_refl|].
+  rewrite andb_true_iff. intros [K H]. eapply shrink_trans; [apply class_step_shrink; exact K|apply IH; exact H].
 Qed.
 
-Lemma fold_pinv fuel w ops : forall st, pinv st -> pinv (fold_left (step fuel w) ops st).
+Lemma inst_step_pinv fuel w st x : is_class_op x = false -> pinv st -> pinv (step fuel w st x).
 Proof.
-  induction ops as [|x ops IH]; intros st P; cbn [fold_left]; [assumption|]. apply IH. apply step_pinv; assumption.
+  intros K P. destruct x; cbn [is_class_op] in K; try discriminate; cbn [step].
+  - apply directly_provides_pinv; assumption.
+  - apply directly_provides_pinv; assumption.
+  - apply gc_pinv; assumption.
 Qed.
 
 Lemma init_pinv w : pinv (init_state w).
@@ -470,8 +493,29 @@ Proof.
     apply nth_error_In in N. apply in_map_iff in N. destruct N as (x & E & _). subst io. discriminate.
 Qed.
 
-Lemma run_pinv fuel w ops : pinv (run fuel w ops).
-Proof. apply fold_pinv. apply init_pinv. Qed.
+(* after the class-level part of a module-ordered history no instance has a declaration yet *)
+Lemma class_ops_pinv fuel w cops : forallb is_class_op cops = true -> pinv (run fuel w cops).
+Proof.
+  intros H. destruct (class_ops_shrink fuel w cops (init_state w) H) as (E1 & E2 & E3). fold (run fuel w cops) in *.
+  destruct (init_pinv w) as [_ Lv]. split.
+  - intros k p I. apply E3 in I. destruct I.
+  - intros o io p. rewrite E2. intros N I. destruct (Lv _ _ _ N I) as (pr & Np & A). discriminate.
+Qed.
+
+Lemma inst_ops_pinv fuel w iops : forall st,
+  forallb (fun x => negb (is_class_op x)) iops = true -> pinv st -> pinv (fold_left (step fuel w) iops st).
+Proof.
+  induction iops as [|x l IH]; intros st; cbn [forallb fold_left]; [auto|].
+  rewrite andb_true_iff, negb_true_iff. intros [K H] P. apply IH; [assumption|]. apply inst_step_pinv; assumption.
+Qed.
+
+Lemma ordered_run_pinv fuel w cops iops :
+  forallb is_class_op cops = true -> forallb (fun x => negb (is_class_op x)) iops = true ->
+  pinv (run fuel w (cops ++ iops)).
+Proof.
+  intros Hc Hi. unfold run. rewrite fold_left_app. apply inst_ops_pinv; [assumption|].
+  apply class_ops_pinv; assumption.
+Qed.
 
 (* ------------------------------------------------------------------ unpickling a Provides *)
 
@@ -492,16 +536,28 @@ Proof.
   rewrite all_some_Some. rewrite map_as_iface, all_some_Some. reflexivity.
 Qed.
 
-Lemma provides_roundtrip_live fuel w ops o io p :
-  wf_globals w = true ->
-  nth_error (st_insts (run fuel w ops)) o = Some io -> in_provides io = Some p ->
-  exists pr, nth_error (st_provs (run fuel w ops)) p = Some pr /\
-    (ids_ok w (pv_cls pr) (pv_ifaces pr) = true ->
-     rebuild fuel w (run fuel w ops) (reduce_prov w pr) = (run fuel w ops, Some (OProv p))).
+(* a declaration that is still shared (the cache maps its arguments to it) unpickles to itself *)
+Lemma provides_roundtrip_shared fuel w st pr p :
+  wf_globals w = true -> ids_ok w (pv_cls pr) (pv_ifaces pr) = true ->
+  assoc_key (pv_cls pr, pv_ifaces pr) (st_cache st) = Some p ->
+  rebuild fuel w st (reduce_prov w pr) = (st, Some (OProv p)).
 Proof.
-  intros W N I. destruct (run_pinv fuel w ops) as [_ Lv].
-  destruct (Lv _ _ _ N I) as (pr & Np & A). exists pr. split; [assumption|]. intros K.
-  rewrite rebuild_prov by assumption. unfold provides_factory. rewrite A. reflexivity.
+  intros W K A. rewrite rebuild_prov by assumption. unfold provides_factory. rewrite A. reflexivity.
+Qed.
+
+(* in a module-ordered history every declaration an instance holds is still shared *)
+Lemma provides_roundtrip_live fuel w cops iops o io p :
+  wf_globals w = true ->
+  forallb is_class_op cops = true -> forallb (fun x => negb (is_class_op x)) iops = true ->
+  nth_error (st_insts (run fuel w (cops ++ iops))) o = Some io -> in_provides io = Some p ->
+  exists pr, nth_error (st_provs (run fuel w (cops ++ iops))) p = Some pr /\
+    assoc_key (pv_cls pr, pv_ifaces pr) (st_cache (run fuel w (cops ++ iops))) = Some p /\
+    (ids_ok w (pv_cls pr) (pv_ifaces pr) = true ->
+     rebuild fuel w (run fuel w (cops ++ iops)) (reduce_prov w pr) = (run fuel w (cops ++ iops), Some (OProv p))).
+Proof.
+  intros W Hc Hi N I. destruct (ordered_run_pinv fuel w cops iops Hc Hi) as [_ Lv].
+  destruct (Lv _ _ _ N I) as (pr & Np & A). exists pr. split; [assumption|]. split; [assumption|]. intros K.
+  apply provides_roundtrip_shared; assumption.
 Qed.
 
 (* ------------------------------------------------------------------ Provides in another process *)
@@ -630,12 +686,11 @@ Proof.
     rewrite (prov_current_ext fuel w st (gc st)); [assumption|]. apply same_impl_fields. reflexivity.
 Qed.
 
-Lemma class_ops_cache fuel w cops : forall st,
-  forallb is_class_op cops = true -> st_cache (fold_left (step fuel w) cops st) = st_cache st.
+Lemma class_ops_cache fuel w cops :
+  forallb is_class_op cops = true -> st_cache (run fuel w cops) = [].
 Proof.
-  induction cops as [|x l IH]; intros st; cbn [forallb fold_left]; [reflexivity|].
-  rewrite andb_true_iff. intros [K H]. rewrite IH by assumption.
-  destruct (class_step_frame fuel w st x K) as (_ & F & _). assumption.
+  intros H. destruct (class_ops_shrink fuel w cops (init_state w) H) as (_ & _ & E3). fold (run fuel w cops) in E3.
+  destruct (st_cache (run fuel w cops)) as [|x l]; [reflexivity|]. destruct (E3 x); left; reflexivity.
 Qed.
 
 Lemma inst_ops_current fuel w iops : forall st,
@@ -655,7 +710,7 @@ Lemma module_order_current fuel w cops iops :
   same_impl w (run fuel w cops) (run fuel w (cops ++ iops)).
 Proof.
   intros Hc Hi. unfold run. rewrite fold_left_app. apply inst_ops_current; [assumption|].
-  unfold cache_current. rewrite (class_ops_cache fuel w cops _ Hc). reflexivity.
+  unfold cache_current. fold (run fuel w cops). rewrite (class_ops_cache fuel w cops Hc). reflexivity.
 Qed.
 
 Lemma live_is_current fuel w st o io p :
@@ -687,7 +742,7 @@ Proof.
   intros W Hc Hi Hi' N I.
   destruct (module_order_current fuel w cops iops Hc Hi) as [CC S].
   destruct (module_order_current fuel w cops iops' Hc Hi') as [CC' S'].
-  destruct (live_is_current fuel w _ o io p (run_pinv fuel w _) CC N I) as (pr & Np & Cu).
+  destruct (live_is_current fuel w _ o io p (ordered_run_pinv fuel w cops iops Hc Hi) CC N I) as (pr & Np & Cu).
   exists pr. split; [assumption|]. intros K.
   assert (S2 : same_impl w (run fuel w (cops ++ iops)) (run fuel w (cops ++ iops'))).
   { intros k. rewrite (S' k), (S k). reflexivity. }
@@ -821,27 +876,26 @@ Proof.
   destruct Hv as [[-> ->]|(p & -> & ->)]; reflexivity.
 Qed.
 
-Lemma object_roundtrip fuel w ops o io :
+(* any state: an instance record whose declaration (if any) is a valid, importable, still shared one *)
+Lemma object_roundtrip fuel w st io :
   wf_globals w = true ->
-  nth_error (st_insts (run fuel w ops)) o = Some io ->
   in_cls io < List.length (w_classes w) ->
-  (forall p pr, in_provides io = Some p -> nth_error (st_provs (run fuel w ops)) p = Some pr ->
-                ids_ok w (pv_cls pr) (pv_ifaces pr) = true) ->
+  (forall p, in_provides io = Some p ->
+     exists pr, nth_error (st_provs st) p = Some pr /\ ids_ok w (pv_cls pr) (pv_ifaces pr) = true /\
+                assoc_key (pv_cls pr, pv_ifaces pr) (st_cache st) = Some p) ->
   exists st',
-    rebuild fuel w (run fuel w ops) (reduce_inst w (run fuel w ops) io)
-      = (st', Some (OInst (List.length (st_insts (run fuel w ops))))) /\
-    nth_error (st_insts st') (List.length (st_insts (run fuel w ops))) = Some io /\
-    st_impl st' = st_impl (run fuel w ops) /\ st_provs st' = st_provs (run fuel w ops) /\
-    st_cache st' = st_cache (run fuel w ops) /\
-    inst_provided fuel w st' io = inst_provided fuel w (run fuel w ops) io.
+    rebuild fuel w st (reduce_inst w st io) = (st', Some (OInst (List.length (st_insts st)))) /\
+    nth_error (st_insts st') (List.length (st_insts st)) = Some io /\
+    st_impl st' = st_impl st /\ st_provs st' = st_provs st /\ st_cache st' = st_cache st /\
+    inst_provided fuel w st' io = inst_provided fuel w st io.
 Proof.
-  intros W N Hc Hp. set (st := run fuel w ops) in *.
+  intros W Hc Hp.
   set (st' := mkState (st_impl st) (st_cprov_of st) (st_cprovs st) (st_provs st) (st_cache st) (st_insts st ++ [io])).
   assert (R : rebuild fuel w st (reduce_inst w st io) = (st', Some (OInst (List.length (st_insts st))))).
   { unfold reduce_inst. destruct (in_provides io) as [p|] eqn:Ip.
-    - destruct (provides_roundtrip_live fuel w ops o io p W N Ip) as (pr & Np & Rp). fold st in Np, Rp.
+    - destruct (Hp p eq_refl) as (pr & Np & K & A).
       rewrite Np. apply (rebuild_inst fuel w st io (reduce_prov w pr) (OProv p)); try assumption.
-      + apply Rp. apply (Hp p pr eq_refl Np).
+      + apply provides_roundtrip_shared; assumption.
       + right. exists p. auto.
     - apply (rebuild_inst fuel w st io RNone ONone); try assumption; [reflexivity|]. left; auto. }
   exists st'. split; [exact R|]. split.
@@ -852,6 +906,27 @@ Proof.
   - change (st_provs st') with (st_provs st). destruct (nth_error (st_provs st) p); [|reflexivity].
     apply decl_interfaces_ext; assumption.
   - apply sref_interfaces_ext; assumption.
+Qed.
+
+(* module-ordered histories meet that hypothesis for every instance *)
+Lemma object_roundtrip_ordered fuel w cops iops o io :
+  wf_globals w = true ->
+  forallb is_class_op cops = true -> forallb (fun x => negb (is_class_op x)) iops = true ->
+  nth_error (st_insts (run fuel w (cops ++ iops))) o = Some io ->
+  in_cls io < List.length (w_classes w) ->
+  (forall p pr, in_provides io = Some p -> nth_error (st_provs (run fuel w (cops ++ iops))) p = Some pr ->
+                ids_ok w (pv_cls pr) (pv_ifaces pr) = true) ->
+  exists st',
+    rebuild fuel w (run fuel w (cops ++ iops)) (reduce_inst w (run fuel w (cops ++ iops)) io)
+      = (st', Some (OInst (List.length (st_insts (run fuel w (cops ++ iops)))))) /\
+    nth_error (st_insts st') (List.length (st_insts (run fuel w (cops ++ iops)))) = Some io /\
+    st_impl st' = st_impl (run fuel w (cops ++ iops)) /\ st_provs st' = st_provs (run fuel w (cops ++ iops)) /\
+    st_cache st' = st_cache (run fuel w (cops ++ iops)) /\
+    inst_provided fuel w st' io = inst_provided fuel w (run fuel w (cops ++ iops)) io.
+Proof.
+  intros W Hc Hi N Hcl Hp. apply object_roundtrip; try assumption.
+  intros p Ip. destruct (provides_roundtrip_live fuel w cops iops o io p W Hc Hi N Ip) as (pr & Np & A & _).
+  exists pr. split; [assumption|]. split; [apply (Hp p pr Ip Np)|assumption].
 Qed.
 
 (* ------------------------------------------------------------------ equality and hash *)
@@ -876,8 +951,8 @@ Lemma roundtrip_eq_hash fuel w ops :
      exists y, rebuild fuel w (run fuel w ops) (reduce_impl w r) = (run fuel w ops, Some y) /\
        py_eq w y (OImpl c) = true /\
        forall hk hid, py_hash w hk hid y = py_hash w hk hid (OImpl c)) /\
-  (forall o io p pr, nth_error (st_insts (run fuel w ops)) o = Some io -> in_provides io = Some p ->
-     nth_error (st_provs (run fuel w ops)) p = Some pr -> ids_ok w (pv_cls pr) (pv_ifaces pr) = true ->
+  (forall p pr, nth_error (st_provs (run fuel w ops)) p = Some pr -> ids_ok w (pv_cls pr) (pv_ifaces pr) = true ->
+     assoc_key (pv_cls pr, pv_ifaces pr) (st_cache (run fuel w ops)) = Some p ->
      exists y, rebuild fuel w (run fuel w ops) (reduce_prov w pr) = (run fuel w ops, Some y) /\
        py_eq w y (OProv p) = true /\
        forall hk hid, py_hash w hk hid y = py_hash w hk hid (OProv p)).
@@ -887,7 +962,117 @@ Proof.
     split; [apply py_eq_refl|reflexivity].
   - intros c r Hc H. exists (OImpl c). split; [apply implements_roundtrip; assumption|].
     split; [apply py_eq_refl|reflexivity].
-  - intros o io p pr N I Np K. destruct (provides_roundtrip_live fuel w ops o io p W N I) as (pr' & Np' & R).
-    assert (pr' = pr) by congruence. subst pr'.
-    exists (OProv p). split; [apply R; assumption|]. split; [apply py_eq_refl|reflexivity].
+  - intros p pr Np K A. exists (OProv p). split; [apply provides_roundtrip_shared; assumption|].
+    split; [apply py_eq_refl|reflexivity].
+Qed.
+
+(* ------------------------------------------------------------------ every shared declaration is current *)
+(* (what Provides.changed buys: in EVERY reachable state, not only after module-ordered histories) *)
+
+Lemma flat_map_ext_in {A B} (f g : A -> list B) l :
+  (forall a, In a l -> f a = g a) -> flat_map f l = flat_map g l.
+Proof.
+  induction l as [|x l IH]; intros H; cbn [flat_map]; [reflexivity|].
+  rewrite (H x) by (left; reflexivity). rewrite IH; [reflexivity|]. intros; apply H; right; assumption.
+Qed.
+
+Lemma existsb_false {A} (f : A -> bool) l : existsb f l = false -> forall x, In x l -> f x = false.
+Proof.
+  induction l as [|y l IH]; cbn [existsb]; intros H x []; apply orb_false_iff in H; destruct H; subst; auto.
+Qed.
+
+Lemma get_impl_set_other w st c r d : d <> c -> get_impl w (set_impl st c r) d = get_impl w st d.
+Proof.
+  intros H. unfold get_impl. cbn [set_impl st_impl assoc_nat].
+  destruct (Nat.eqb d c) eqn:E; [apply Nat.eqb_eq in E; contradiction|reflexivity].
+Qed.
+
+(* a class that does not depend on c sees the same implied interfaces after c's spec is replaced *)
+Lemma implied_frame w st c r : forall fuel d,
+  reaches fuel w (set_impl st c r) d c = false ->
+  sref_implied fuel w (set_impl st c r) (RC d) = sref_implied fuel w st (RC d).
+Proof.
+  induction fuel as [|f IH]; intros d H; [reflexivity|].
+  cbn [reaches] in H. apply orb_false_iff in H. destruct H as [H1 H2].
+  apply Nat.eqb_neq in H1. rewrite (get_impl_set_other w st c r d H1) in H2.
+  cbn [sref_implied]. rewrite (get_impl_set_other w st c r d H1).
+  apply flat_map_ext_in. intros x I.
+  destruct x as [i|b|].
+  - destruct f; reflexivity.
+  - apply IH. apply (existsb_false _ _ H2 (RC b) I).
+  - destruct f; reflexivity.
+Qed.
+
+Lemma build_bases_frame fuel w st c r d is :
+  reaches fuel w (set_impl st c r) d c = false ->
+  build_bases fuel w (set_impl st c r) d is = build_bases fuel w st d is.
+Proof.
+  intros H. unfold build_bases, spec_isOrExtends. rewrite (implied_frame w st c r fuel d H). reflexivity.
+Qed.
+
+(* replace the spec of c and notify: what stays in the cache is still current *)
+Lemma set_notify_current fuel w st c r :
+  cache_current fuel w st = true -> cache_current fuel w (notify fuel w (set_impl st c r) c) = true.
+Proof.
+  unfold cache_current. cbn [notify st_cache st_provs set_impl]. rewrite !forallb_forall.
+  intros H x I. apply filter_In in I. destruct I as [I R]. specialize (H x I).
+  destruct (nth_error (st_provs st) (snd x)) as [pr|]; [|discriminate].
+  apply andb_true_iff in H. destruct H as [H1 H2]. rewrite H1. cbn [andb].
+  apply ckey_eqb_eq in H1. apply negb_true_iff in R. rewrite H1 in R. cbn [fst] in R.
+  apply prov_current_eq. apply prov_current_eq in H2. rewrite H2.
+  rewrite (build_bases_ext w (set_impl st c r) (notify fuel w (set_impl st c r) c))
+    by (apply same_impl_fields; reflexivity).
+  symmetry. apply build_bases_frame. assumption.
+Qed.
+
+Lemma ordered_current fuel w st c b a :
+  cache_current fuel w st = true -> cache_current fuel w (ordered fuel w st c b a) = true.
+Proof. intros H. unfold ordered. apply set_notify_current. assumption. Qed.
+
+Lemma implementedBy_current fuel w st c :
+  cache_current fuel w st = true -> cache_current fuel w (implementedBy fuel w st c) = true.
+Proof.
+  intros H. destruct (implementedBy_frame fuel w st c) as (F1 & F2 & _).
+  eapply cache_current_ext; [exact F1|exact F2|apply implementedBy_same_impl|exact H].
+Qed.
+
+Lemma step_current fuel w st x :
+  cache_current fuel w st = true -> cache_current fuel w (step fuel w st x) = true.
+Proof.
+  intros H. destruct (is_class_op x) eqn:K; [|apply inst_step_current; assumption].
+  destruct x; cbn [is_class_op] in K; try discriminate; cbn [step].
+  - apply implementedBy_current; assumption.
+  - unfold class_implements. apply ordered_current, implementedBy_current; assumption.
+  - unfold class_implements_only. apply ordered_current, set_notify_current, implementedBy_current; assumption.
+  - unfold class_implements_first. apply ordered_current, implementedBy_current; assumption.
+  - unfold class_provides. eapply cache_current_ext; [| | |apply (implementedBy_current fuel w st c H)];
+      try reflexivity. apply same_impl_fields. reflexivity.
+Qed.
+
+Lemma run_current fuel w ops : cache_current fuel w (run fuel w ops) = true.
+Proof.
+  unfold run. assert (H : cache_current fuel w (init_state w) = true) by reflexivity.
+  revert H. generalize (init_state w). induction ops as [|x ops IH]; intros st H; cbn [fold_left]; [assumption|].
+  apply IH. apply step_current; assumption.
+Qed.
+
+(* a still-shared declaration of ANY reachable state, unpickled in ANY reachable state of a process
+   with the same class declarations *)
+Lemma provides_roundtrip_reachable fuel w ops ops2 p pr :
+  wf_globals w = true -> ids_ok w (pv_cls pr) (pv_ifaces pr) = true ->
+  (forall k, get_impl w (run fuel w ops2) k = get_impl w (run fuel w ops) k) ->
+  nth_error (st_provs (run fuel w ops)) p = Some pr ->
+  assoc_key (pv_cls pr, pv_ifaces pr) (st_cache (run fuel w ops)) = Some p ->
+  exists st2' p' pr',
+    rebuild fuel w (run fuel w ops2) (reduce_prov w pr) = (st2', Some (OProv p')) /\
+    nth_error (st_provs st2') p' = Some pr' /\
+    pv_cls pr' = pv_cls pr /\ pv_ifaces pr' = pv_ifaces pr /\ pv_bases pr' = pv_bases pr /\
+    obj_interfaces fuel w st2' (OProv p') = obj_interfaces fuel w (run fuel w ops) (OProv p).
+Proof.
+  intros W K S Np A.
+  destruct (cache_current_In _ _ _ _ _ (run_current fuel w ops) (assoc_key_In _ _ _ A)) as (pr0 & Np0 & _ & Cu).
+  assert (pr0 = pr) by congruence. subst pr0.
+  destruct (provides_roundtrip_same fuel w _ _ pr W K S Cu (run_current fuel w ops2))
+    as (st2' & p' & pr' & R & N' & K1 & K2 & K3 & L).
+  exists st2', p', pr'. repeat split; auto. rewrite L. cbn [obj_interfaces]. rewrite Np. reflexivity.
 Qed.
